@@ -1460,8 +1460,7 @@ impl Vm {
       return signal;
     }
 
-    #[cfg(debug_assertions)]
-    let roots_before = self.gc().temp_roots();
+    let roots_before = self.gc.borrow().temp_roots();
 
     match native.environment() {
       NativeEnvironment::StackLess => match native.call(&mut Hooks::new(self), args) {
@@ -1476,7 +1475,10 @@ impl Vm {
           }
           ExecutionSignal::OkReturn
         },
-        Call::Err(LyError::Err(error)) => self.set_error(error),
+        Call::Err(LyError::Err(error)) => {
+          self.release_abandoned_roots(roots_before);
+          self.set_error(error)
+        },
         Call::Err(LyError::Exit(code)) => self.set_exit(code),
       },
       NativeEnvironment::Normal => {
@@ -1513,12 +1515,24 @@ impl Vm {
             }
             ExecutionSignal::OkReturn
           },
-          Call::Err(LyError::Err(error)) => self.set_error(error),
+          Call::Err(LyError::Err(error)) => {
+            self.release_abandoned_roots(roots_before);
+            self.set_error(error)
+          },
           Call::Err(LyError::Exit(code)) => self.set_exit(code),
         }
       },
     }
   }}
+
+  /// A native that returns an error leaves through `?` and never pops the
+  /// temporary roots it pushed, release them so they do not accumulate
+  fn release_abandoned_roots(&mut self, roots_before: usize) {
+    let roots_current = self.gc.borrow().temp_roots();
+    if roots_current > roots_before {
+      self.pop_roots(roots_current - roots_before);
+    }
+  }
 
   /// call a laythe function setting it as the new call frame
   unsafe fn call_closure(&mut self, closure: ObjRef<Closure>, arg_count: u8) -> ExecutionSignal { unsafe {
